@@ -93,10 +93,14 @@ def step (r : R) (b : UInt8) : R :=
     else if b == 10 || b == 13 then endRecord r
     else { r with st := .unq, field := r.field ++ [b] }
 
+/-- end of input.  csv-core's DFA (`transition_final_dfa`) ends a record from every state that is
+    neither the start state nor already past a record — including the comment state: a comment line
+    that is cut off by the end of the input yields a record with **no** fields (which then fails the
+    field-count check unless it is the only record). -/
 def finish (r : R) : List (List Bytes) :=
   match r.st with
   | .sor => r.out
-  | .comment => r.out
+  | .comment => r.out ++ [[]]
   | _ => (endRecord r).out
 
 /-- all records of the input, header included -/
